@@ -12,6 +12,7 @@ classification corpus/C10/map_range_sites.json.
 import Martian.ForkOrder
 import Proofs.ForkOrder
 import Proofs.ForkOrderBij
+import Proofs.ForkOrderOn
 import Martian.Determinism
 import Martian.DeterminismAccum
 import Proofs.Determinism
@@ -532,6 +533,36 @@ theorem forks_bijection (roots : List Root) (inner : Inner) (hs : StaticKnown ro
   intro t
   rw [hp.mem_iff]
   exact mem_allForks inner roots 0 [] t
+
+open Martian.ForkOrder in
+/-- forks_bijection with a hypothesis a FINITE table satisfies (audit pass 3, A7): the nested
+sources need to be known and non-empty only WHERE NEEDED — at the prefixes the enumeration
+really consults (`bfsQ`) and at the prefixes valid pick sequences reach (`validKnown`);
+`knownWhereNeeded` is one executable check, which the driver evaluates on every real case
+(op `forkbij`).  Same conclusion: no duplicates, exactly the combinations the sources define. -/
+theorem forks_bijection_where_known (roots : List Root) (inner : Inner) (hs : StaticKnown roots)
+    (hK : knownWhereNeeded roots inner = true)
+    (hSN : ∀ r ∈ roots, ∀ e, r = Root.static e → e.KeysNodup)
+    (hIN : ∀ j pre, (inner j pre).KeysNodup) :
+    (forkOrder roots inner).Nodup ∧
+      ∀ t, t ∈ forkOrder roots inner ↔ Valid inner 0 [] roots t :=
+  forks_bijection_on roots inner hs hK hSN hIN
+
+open Martian.ForkOrder in
+/-- Non-vacuity with a RAGGED finite table (unknown everywhere else, as every table the driver
+builds): a static array of 2, the inner source has 3 elements under the first and 2 under the
+second outer element. -/
+example : knownWhereNeeded [Root.static (.arr 2), Root.dyn]
+    (fun j pre => if j == 1 && pre == [.idx 0] then .arr 3
+      else if j == 1 && pre == [.idx 1] then .arr 2 else .unknown) = true := by decide
+
+open Martian.ForkOrder in
+/-- … and the global hypothesis of `forks_bijection` fails for such a table -/
+example : ¬ InnerKnown (fun j pre => if j == 1 && pre == [.idx 0] then .arr 3
+      else if j == 1 && pre == [.idx 1] then .arr 2 else .unknown) := by
+  intro h
+  obtain ⟨x, xs, hx⟩ := h 0 []
+  simp [Elems.parts] at hx
 
 open Martian.ForkOrder in
 /-- … and it is a permutation of the ragged product enumerated root by root -/
